@@ -219,6 +219,38 @@ class OpSub(_IntOp):
         return SubIntData(data.data)
 
 
+class OpSubDecl(DataOperation):
+    """IntData -> SubIntData, declared as such (type lattice: a producer of the subclass)"""
+
+    @classmethod
+    def input_data_type(cls):
+        return IntData
+
+    @classmethod
+    def output_data_type(cls):
+        return SubIntData
+
+    def _process_logic(self, data):
+        LOG.append(("OpSubDecl", {}))
+        return SubIntData(data.data)
+
+
+class OpNeedSub(DataOperation):
+    """SubIntData -> IntData(x + 1): a consumer that requires the subclass"""
+
+    @classmethod
+    def input_data_type(cls):
+        return SubIntData
+
+    @classmethod
+    def output_data_type(cls):
+        return IntData
+
+    def _process_logic(self, data):
+        LOG.append(("OpNeedSub", {}))
+        return IntData(data.data + 1)
+
+
 class Boom(Exception):
     pass
 
@@ -368,7 +400,7 @@ def register() -> None:
     """Make the library resolvable by name (sweeps resolve `collection` through the registry)."""
     from semantiva.registry.processor_registry import ProcessorRegistry
 
-    for cls in (IntData, SubIntData, OtherData, IntColl, IntColl2, OpTwoB, OpNest, OpNestB, SrcV, SrcD, PSrc, OpAdd, OpAddDef, OpAff, OpTwo, OpCtxW, OpCtxBad, OpToOther, OpSub, OpBoom, OpMkColl, OpSum, PrVal, PrParam, PrReq, Snk, PSnk, CpSum, CpBad):
+    for cls in (IntData, SubIntData, OtherData, IntColl, IntColl2, OpTwoB, OpNest, OpNestB, SrcV, SrcD, PSrc, OpAdd, OpAddDef, OpAff, OpTwo, OpCtxW, OpCtxBad, OpToOther, OpSub, OpSubDecl, OpNeedSub, OpBoom, OpMkColl, OpSum, PrVal, PrParam, PrReq, Snk, PSnk, CpSum, CpBad):
         ProcessorRegistry.register_processor(cls.__name__, cls)
 
 
